@@ -498,9 +498,9 @@ Proof.
   generalize dependent (arm T_iter ITERATE_MS true s2). intros s3 V3.
   destruct (clrconn s3); exact V3.
 Qed.
-Lemma kv_disccb s : kview_of (dev_step s DiscCb) = kview_of s.
+Lemma kv_disc_step s : kview_of (disc_step s) = kview_of s.
 Proof.
-  cbn [dev_step]. unfold disconnect_cb.
+  unfold disc_step, disconnect_cb.
   assert (V1 : kview_of (if link s =? L_LIVE then wire_close s else s) = kview_of s) by (destruct (_ =? _); [apply kv_wire_close|reflexivity]).
   generalize dependent (if link s =? L_LIVE then wire_close s else s). intros s1 V1.
   assert (V2 : kview_of (set_recvbuf [] (set_espbuf [] (gpio_state_ipreceived (set_link L_IDLE (emit O_DISCD [now s1; conn s1; evi s1] s1))))) = kview_of s).
@@ -513,6 +513,9 @@ Lemma kview_eq_fields s' a1 a2 a3 a4 a5 a6 a7 a8 a9 a10 a11 a12 : kview_of s' = 
   ktmo s' = a1 /\ actto s' = a2 /\ registered s' = a3 /\ has_rpc s' = a4 /\ kenv s' = a5 /\ kabs s' = a6 /\ lastsent s' = a7 /\
   lastresp s' = a8 /\ now s' = a9 /\ boot s' = a10 /\ cycles0 s' = a11 /\ t_timer1 s' = a12.
 Proof. unfold kview_of. intros H. inversion H. repeat split; reflexivity. Qed.
+
+Lemma kv_disccb s : kview_of (dev_step s DiscCb) = kview_of s.
+Proof. cbn [dev_step]. apply kv_disc_step. Qed.
 
 Section SimRun.
 Variables cs cc : bool.
@@ -542,7 +545,9 @@ Proof.
   - eapply KSim_view; [|exact K1]. reflexivity.
   - cbn [env_allows] in E. apply Z.eqb_eq in E. destruct A1 as [R _]. apply ksim_conncb; auto.
   - eapply KSim_view; [apply kv_disccb|auto].
-  - cbn [dev_step]. apply ksim_recv_cb. eapply KSim_view; [apply kv_emit|auto].
+  - cbn [dev_step].
+    assert (K2 : KSim true (recv_cb b (emit O_RX [now s1; conn s1; evi s1] s1))) by (apply ksim_recv_cb; eapply KSim_view; [apply kv_emit|auto]).
+    destruct (link s1 =? L_CLOSING); [|exact K2]. eapply KSim_view; [apply kv_disc_step|exact K2].
   - eapply KSim_view; [|exact K1]. reflexivity.
   - eapply KSim_view; [|exact K1]. reflexivity.
   - cbn [dev_step]. eapply KSim_view; [apply kv_local_call|auto].
